@@ -159,8 +159,9 @@ def _termination(spec):
 
 
 def _nested(name):
-    from mystic.solvers import NelderMeadSimplexSolver, PowellDirectionalSolver
-    return {"NM": NelderMeadSimplexSolver, "Powell": PowellDirectionalSolver}[name]
+    from mystic.solvers import NelderMeadSimplexSolver, PowellDirectionalSolver, DifferentialEvolutionSolver, DifferentialEvolutionSolver2
+    return {"NM": NelderMeadSimplexSolver, "Powell": PowellDirectionalSolver,
+            "DE": DifferentialEvolutionSolver, "DE2": DifferentialEvolutionSolver2}[name]
 
 
 def _new_solver(case):
@@ -236,7 +237,9 @@ def run_ensemble(case, mode, mapkind):
     term = _termination(case["term"])
     try:
         if case.get("nested_instance"):
-            s.SetNestedSolver(_nested(case["nested"])(dim))
+            s.SetNestedSolver(_nested(case["nested"])(dim, case["NP"]) if case.get("NP") else _nested(case["nested"])(dim))
+        elif case.get("NP"):
+            s.SetNestedSolver(_nested(case["nested"]), NP=case["NP"])
         else:
             s.SetNestedSolver(_nested(case["nested"]))
         if case.get("lo"):
@@ -475,6 +478,13 @@ def _oracle_state(case, st, rep, tagged, where, out, inst):
             add("solution_is_that_members", "AbstractEnsembleSolver.__update_state", "solution-of-no-minimal-member", [rep["bestX"], rep["all_bestX"], E])
         elif not any(rep["all_evals"][i] == rep["evals"] for i in ok):
             add("solution_is_that_members", "AbstractEnsembleSolver.__update_state", "evaluations-not-that-members", [rep["evals"], rep["all_evals"], ok])
+    # the reported energy is the (penalised) cost AT the reported solution -- after Solve and after every Step
+    lo, hi = case.get("lo") or st["lo_eff"], case.get("hi") or st["hi_eff"]
+    b = rep["bestX"]
+    cands = [b] + ([cons_apply(case["cons"], b, lo, hi)] if case.get("cons") else [])
+    vals = [raw_cost(c, case["cost"]) + pen_value(case.get("pen"), c, lo, hi) for c in cands]
+    if not inst and not any(_close(v, rep["bestE"]) for v in vals):
+        add("solution_is_that_members", "AbstractEnsembleSolver.__update_state", "reported-energy-not-cost-at-reported-solution", [b, rep["bestE"], vals])
     if rep["total"] != sum(rep["all_evals"]):
         add("total_evals_is_sum", "AbstractEnsembleSolver._total_evals", "total-not-sum", [rep["total"], rep["all_evals"]])
     real = st["real_total"] if where == "final" else rep["real_total"]
@@ -599,6 +609,8 @@ def oracle_ensemble(case, obs):
                 add("best_is_min_member", "AbstractEnsembleSolver._Step", "final-state-not-last-step", None)
         key = st["mode"]
         sig = (json.dumps(rep, sort_keys=True), json.dumps([[m["bestE"], m["bestX"], m["evals"]] for m in mem]), json.dumps(iv))
+        if case["nested"] in ("DE", "DE2"):
+            continue          # members consume the global RNG: results legitimately depend on the evaluation order
         if key in finals and finals[key][0] != sig:
             add("map_order_independent", "AbstractEnsembleSolver._Solve", "result-depends-on-map-order", [finals[key][1], run])
         finals.setdefault(key, (sig, run))
@@ -916,7 +928,7 @@ def coq_terms(case, obs):
         q = "(%s : list (list Z))" % lst(["(%s : list Z)" % lst(a, zlit) for a in case["q"]])
         got = "None" if "error" in obs else "(Some (%s : list (list Z)))" % lst(["(%s : list Z)" % lst(p, zlit) for p in obs["pts"]])
         T.append("ozll_eq (gridpts_impl %s) %s" % (q, got))
-        if case["q"] and all(len(a) > 0 for a in case["q"]) and "error" not in obs:
+        if case["q"] and "error" not in obs:
             T.append("ozll_eq (Some (gridpts %s)) %s" % (q, got))
         return T
     if k == "randomly_bin":
